@@ -6,11 +6,14 @@ def norm_ty(s):
     s = re.sub(r"'[A-Za-z_][A-Za-z0-9_]*\s*", "", s)
     s = re.sub(r"'\{erased\}\s*", "", s)
     s = s.replace("std::", "core::").replace("alloc::", "core::")
-    return s
+    return _LOCAL_TY.sub(r"\1", s)
+
+# the crate's two public types are named without the module they happen to be defined in
+_LOCAL_TY = re.compile(r"\b(?:[a-z_][a-z0-9_]*::)+(TwoFloatError|TwoFloat)\b")
 
 def norm_path(s):
     s = re.sub(r"'[A-Za-z_][A-Za-z0-9_]*\s*", "", s)
-    return s.replace("std::", "core::")
+    return _LOCAL_TY.sub(r"\1", s.replace("std::", "core::"))
 
 class Body:
     def __init__(self, j):
